@@ -186,10 +186,12 @@ Definition apply_sop (np nl ns : nat) (g : gates) (st : state) (op : sop) : stat
     let st2 := match prelen c (g_pl g) with Some n => compact np nl ns (trunc_l c n st1) | None => st1 end in
     (st2, {| g_al := remove c (g_al g); g_as := g_as g; g_pl := unpark c (g_pl g); g_ps := g_ps g |})
   | AbortS c cancel =>
-    let st0 := if cancel then st else cstep np nl ns st (SessReq c 0 REof) in
-    let st1 := cstep np nl ns st0 (SessEnd c cancel) in
-    let st2 := match prelen c (g_ps g) with Some n => compact np nl ns (trunc_s c n st1) | None => st1 end in
-    (st2, {| g_al := g_al g; g_as := remove c (g_as g); g_pl := g_pl g; g_ps := unpark c (g_ps g) |})
+    (* the parked Send returns the error: the call returns it (whatever the read goroutine
+       has queued meanwhile) and runs the cleanup *)
+    let st1 := cstep np nl ns st (SessEnd c true) in
+    let st2 := match prelen c (g_ps g) with Some n => trunc_s c n st1 | None => st1 end in
+    let st3 := if cancel then st2 else put_scall c (set_sst (scalls st2 c) (Ended EStream)) st2 in
+    (compact np nl ns st3, {| g_al := g_al g; g_as := remove c (g_as g); g_pl := g_pl g; g_ps := unpark c (g_ps g) |})
   end.
 
 Definition do_op (np nl ns : nat) (a : acc) (op : sop) : acc :=
